@@ -10,6 +10,8 @@
 //!                   swap:A:B (mem::swap)    mv:D:S (regs[D] = mem::replace(&mut regs[S], new(0)))
 //! `fromx` is `from_rows` with an iterator whose `ExactSizeIterator::len()` says CLAIMED.
 //! `pat` is the next()/next_back() pattern (1 = next) of the final double-ended walks.
+//! `steps` (optional) = positional calls n / b / N<k> / M<k> (next, next_back, nth, nth_back) of a further
+//! walk over iter(), iter_mut() and into_iter(), plus skip / step_by / last / count adaptors (`STEPS&` item).
 //!
 //! `dense run` reads input lines on stdin and prints them followed by
 //!     ` => <obs>;<obs>;...;END&<fin0>&<fin1>&<fin2>`
@@ -376,6 +378,101 @@ fn observe_all<T: Val, C: ArrayLength + PartialEq>(regs: &[DenseMatrix<T, C>]) -
     parts.join("&")
 }
 
+/// One positional iterator call of the final "steps" walk (input field `steps=`, tokens separated by
+/// `.`): `n` next(), `b` next_back(), `N<k>` nth(k), `M<k>` nth_back(k).  std's skip / step_by /
+/// rev().skip / rev().step_by are made of these calls.
+#[derive(Clone, Copy, Debug)]
+enum Step {
+    Next,
+    Back,
+    Nth(usize),
+    NthBack(usize),
+}
+
+fn parse_steps(s: &str) -> Vec<Step> {
+    s.split('.')
+        .filter(|t| !t.is_empty())
+        .map(|t| match t.as_bytes()[0] {
+            b'n' => Step::Next,
+            b'b' => Step::Back,
+            b'N' => Step::Nth(t[1..].parse().unwrap()),
+            b'M' => Step::NthBack(t[1..].parse().unwrap()),
+            _ => panic!("bad step {}", t),
+        })
+        .collect()
+}
+
+fn show_steps(st: &[Step]) -> String {
+    st.iter()
+        .map(|s| match s {
+            Step::Next => "n".to_string(),
+            Step::Back => "b".to_string(),
+            Step::Nth(k) => format!("N{}", k),
+            Step::NthBack(k) => format!("M{}", k),
+        })
+        .collect::<Vec<_>>()
+        .join(".")
+}
+
+fn walk_steps<'a, R, I>(mut it: I, steps: &[Step], f: impl Fn(R) -> Vec<i64>) -> (Vec<Option<Vec<i64>>>, Vec<usize>)
+where
+    I: DoubleEndedIterator<Item = R> + ExactSizeIterator,
+{
+    let mut out = vec![];
+    let mut lens = vec![];
+    for s in steps {
+        let r = match s {
+            Step::Next => it.next(),
+            Step::Back => it.next_back(),
+            Step::Nth(k) => it.nth(*k),
+            Step::NthBack(k) => it.nth_back(*k),
+        };
+        out.push(r.map(&f));
+        lens.push(it.len());
+    }
+    (out, lens)
+}
+
+/// `<iter walk>|<iter_mut walk>|<into_iter walk>|<lens of the iter walk>|<adaptors>` where adaptors =
+/// rows of `iter().skip(k)`, `iter().rev().skip(k)`, `iter().step_by(k+1)`, `iter().rev().step_by(k+1)`,
+/// `iter().last()`, `iter().count()` for k = the argument of the first N/M token (0 when there is none).
+fn steps_obs<T: Val, C: ArrayLength + PartialEq>(m: &DenseMatrix<T, C>, steps: &[Step]) -> String {
+    let (a, lens) = walk_steps(m.iter(), steps, |r| row_i(r));
+    let mut c = m.clone();
+    let (b, _) = walk_steps(c.iter_mut(), steps, |r| row_i(r));
+    let (d, _) = walk_steps((&*m).into_iter(), steps, |r| row_i(r));
+    let k = steps
+        .iter()
+        .filter_map(|s| match s {
+            Step::Nth(k) | Step::NthBack(k) => Some(*k),
+            _ => None,
+        })
+        .next()
+        .unwrap_or(0);
+    let sk: Vec<Vec<i64>> = m.iter().skip(k).map(row_i).collect();
+    let rsk: Vec<Vec<i64>> = m.iter().rev().skip(k).map(row_i).collect();
+    let sb: Vec<Vec<i64>> = m.iter().step_by(k + 1).map(row_i).collect();
+    let rsb: Vec<Vec<i64>> = m.iter().rev().step_by(k + 1).map(row_i).collect();
+    let mut c2 = m.clone();
+    let msk: Vec<Vec<i64>> = c2.iter_mut().rev().skip(k).map(|r| row_i(r)).collect();
+    let last: Vec<Option<Vec<i64>>> = vec![m.iter().last().map(row_i)];
+    format!(
+        "{}|{}|{}|{}|{}|{}|{}|{}|{}|{}|{}|{}",
+        show_opt_rows(&a),
+        show_opt_rows(&b),
+        show_opt_rows(&d),
+        lens.iter().map(|x| x.to_string()).collect::<Vec<_>>().join(","),
+        k,
+        show_rows(&sk),
+        show_rows(&rsk),
+        show_rows(&sb),
+        show_rows(&rsb),
+        show_rows(&msk),
+        show_opt_rows(&last),
+        m.iter().count()
+    )
+}
+
 fn final_obs<T: Val, C: ArrayLength + PartialEq>(m: &DenseMatrix<T, C>, pat: &[bool]) -> String {
     let it: Vec<Vec<i64>> = m.iter().map(row_i).collect();
     let rv: Vec<Vec<i64>> = m.iter().rev().map(row_i).collect();
@@ -444,7 +541,7 @@ fn final_obs<T: Val, C: ArrayLength + PartialEq>(m: &DenseMatrix<T, C>, pat: &[b
     )
 }
 
-fn run_case<T: Val, C: ArrayLength + PartialEq>(ops: &[ROp], pat: &[bool]) -> String {
+fn run_case<T: Val, C: ArrayLength + PartialEq>(ops: &[ROp], pat: &[bool], steps: Option<&[Step]>) -> String {
     let mut regs: Vec<DenseMatrix<T, C>> = (0..NREG).map(|_| DenseMatrix::new(0)).collect();
     let mut out: Vec<String> = vec![];
     for op in ops {
@@ -467,20 +564,26 @@ fn run_case<T: Val, C: ArrayLength + PartialEq>(ops: &[ROp], pat: &[bool]) -> St
         Some(f) => out.push(format!("END&{}", f)),
         None => out.push("OBSPANIC".to_string()),
     }
+    if let Some(st) = steps {
+        match no_panic(|| regs.iter().map(|m| steps_obs(m, st)).collect::<Vec<_>>().join("&")) {
+            Some(f) => out.push(format!("STEPS&{}", f)),
+            None => out.push("STEPSPANIC".to_string()),
+        }
+    }
     out.join(";")
 }
 
-fn dispatch(ty: &str, c: usize, ops: &[ROp], pat: &[bool]) -> String {
+fn dispatch(ty: &str, c: usize, ops: &[ROp], pat: &[bool], steps: Option<&[Step]>) -> String {
     macro_rules! cols {
         ($t:ty) => {
             match c {
-                1 => run_case::<$t, U1>(ops, pat),
-                5 => run_case::<$t, U5>(ops, pat),
-                7 => run_case::<$t, U7>(ops, pat),
-                16 => run_case::<$t, U16>(ops, pat),
-                21 => run_case::<$t, U21>(ops, pat),
-                32 => run_case::<$t, U32>(ops, pat),
-                43 => run_case::<$t, U43>(ops, pat),
+                1 => run_case::<$t, U1>(ops, pat, steps),
+                5 => run_case::<$t, U5>(ops, pat, steps),
+                7 => run_case::<$t, U7>(ops, pat, steps),
+                16 => run_case::<$t, U16>(ops, pat, steps),
+                21 => run_case::<$t, U21>(ops, pat, steps),
+                32 => run_case::<$t, U32>(ops, pat, steps),
+                43 => run_case::<$t, U43>(ops, pat, steps),
                 _ => panic!("unsupported column count {}", c),
             }
         };
@@ -807,6 +910,15 @@ fn gen_case(rng: &mut Rng, id: usize, tier: &str) -> String {
     let nops = 1 + rng.below(maxops) as usize;
     let npat = rng.below(20) as usize;
     let pat: Vec<bool> = (0..npat).map(|_| rng.chance(1, 2)).collect();
+    let nsteps = 1 + rng.below(10) as usize;
+    let steps: Vec<Step> = (0..nsteps)
+        .map(|_| match rng.below(6) {
+            0 | 1 => Step::Next,
+            2 | 3 => Step::Back,
+            4 => Step::Nth(rng.below(4) as usize),
+            _ => Step::NthBack(rng.below(4) as usize),
+        })
+        .collect();
     let mut g = Gen {
         rng,
         ty,
@@ -825,13 +937,14 @@ fn gen_case(rng: &mut Rng, id: usize, tier: &str) -> String {
         g.random_op(i == 0 && start == 0);
     }
     format!(
-        "{} T={} size={} C={} align={} pat={} ops={}",
+        "{} T={} size={} C={} align={} pat={} steps={} ops={}",
         id,
         ty,
         size_of(ty),
         c,
         ALIGN,
         bits(&pat),
+        show_steps(&steps),
         g.ops.iter().map(show_rop).collect::<Vec<_>>().join(";")
     )
 }
@@ -857,7 +970,8 @@ fn main() {
                     .chars()
                     .map(|c| c == '1')
                     .collect();
-                let obs = dispatch(&f["T"], f["C"].parse().unwrap(), &ops, &pat);
+                let steps: Option<Vec<Step>> = f.get("steps").map(|s| parse_steps(s));
+                let obs = dispatch(&f["T"], f["C"].parse().unwrap(), &ops, &pat, steps.as_deref());
                 println!("{} => {}", line, obs);
             }
         }
